@@ -182,7 +182,7 @@ impl Ctx {
     /// listed known finding (decided by the driver against known_findings.json) do not stop the run,
     /// so that they cannot hide a different violation later in the same run.
     pub fn failed(&self) -> bool {
-        self.violations.iter().any(|v| !(v.signature == "dcbor-date-fraction" || v.signature == "dcbor-float-int-range" || (v.signature.contains("/src/date.rs") && v.msg.contains("out-of-range date leaf"))))
+        self.violations.iter().any(|v| !(v.signature == "dcbor-date-fraction" || v.signature == "dcbor-float-int-range" || v.signature == "ssh-key-ecdsa-signature-encoding" || (v.signature.contains("/src/date.rs") && v.msg.contains("out-of-range date leaf"))))
     }
     pub fn trace_hash(&self) -> String {
         let h = self.trace.clone().finalize();
